@@ -208,8 +208,7 @@ Qed.
 
 (* ------------------------------------------------------------------ generated dispatch arms *)
 Lemma dispatch_arms_facts :
-  model_aliases_in_code = true /\ modelled_opcodes_have_arms = true /\
-  no_unchecked_accessor_in_dispatch = true.
+  modelled_opcodes_have_arms = true /\ no_unchecked_accessor_in_dispatch = true.
 Proof. vm_compute. repeat split; reflexivity. Qed.
 
 Lemma canon_int_5 : canon_int (v_int 5).
